@@ -32,8 +32,8 @@ TEXT = {
  ),
  'C07': dict(
   technique='Lean 4 model of ParseJSONPath/ApplyJSONPath (temporaries as in the Go code) + correspondence on results by node identity + independent evaluator over plain data',
-  text="ParseJSONPath, tokenize and ApplyJSONPath are modelled cursor move by cursor move and compared with the implementation on every short string over the path alphabet and on generated (document, path, start node) triples with results compared by node identity and order; an independent evaluator over plain data (written from the selector grammar) is compared with the implementation. Lean theorems: the wildcard step, `$`/`@` anchors, slice index set for ascending steps, no-nil by construction; the slice arithmetic is checked against Python's slice.indices exhaustively for lengths <= 6 (bounded evidence, labelled as such). The general refinement theorem to the selector semantics is open.",
-  note='Partial. The independent evaluator found and the repo now fixes a descending-slice clamp defect.',
+  text="Lean theorems, unbounded: C07_slice_is_python — for EVERY array length, every pair of bounds (absent, negative, beyond either end) and every non-zero step, the index list ApplyJSONPath visits after its bound preparation and clamping is Python's a[s:e:st] (CPython slice.indices + range), in the same order; C07_python_is_progression/C07_slice_order pin that reference down as the arithmetic progression cut at stop, strictly monotone; C07_slice_command — for every heap and working set the slice command returns the children at exactly those indices of every non-empty array; C07_union — key/index/union commands return, key by key in written order and member by member, the member under the unquoted key (objects) or the element at the index counted from the end when negative (arrays), nothing otherwise; closed forms for `$`, `@`, `*`, `..`. Commands are taken as tokenised by the model's tokenizer, which — like ParseJSONPath and the whole ApplyJSONPath — is modelled cursor move by cursor move and compared with the implementation on every short string over the path alphabet (also applied to a document) and on generated (document, path, start node) triples by node identity and order; an independent evaluator over plain data written from the selector grammar is compared with the implementation.",
+  note='The tie of children maps to the abstract document is the heap invariant (C06, not closed under mutators by proof). The independent evaluator found, and the repo now fixes, a descending-slice clamp defect (D15); the slice theorem is the proof that the fix is exactly Python.',
  ),
  'C08': dict(
   technique='Lean 4 theorems on truthiness and script index + path/eval correspondence + independent evaluator',
